@@ -380,7 +380,36 @@ def feasible_cases(cases, subs):
 
 def check_formulas(ctx, cls, roles):
     specs = spec_forms(cls, roles)
+    def closure_stores(meth, depth=3, seen=None):
+        seen = seen if seen is not None else set()
+        if meth in seen or depth < 0:
+            return None
+        seen.add(meth)
+        dcx, fx = ctx.prog.resolve_method(cls, meth)
+        if fx is None:
+            return None
+        st = util.self_stores(fx)
+        if st:
+            return (dcx, meth, st)
+        for c_ in ast.walk(fx):
+            if isinstance(c_, ast.Call) and isinstance(c_.func, ast.Attribute) and src(c_.func.value) == 'self':
+                r_ = closure_stores(c_.func.attr, depth - 1, seen)
+                if r_:
+                    return r_
+        return None
     for mode in MODES:
+        dc0, f0 = ctx.prog.resolve_method(cls, mode)
+        impure = closure_stores(mode)
+        hidden = impure[2] if impure else []
+        if hidden:
+            dc0, mode_h = impure[0], impure[1]
+            # the method keeps something between calls: its value is not a function of (state, parameters, volume, time) alone
+            for (scn, csub, vsub, expected) in specs[mode]:
+                ctx.ob('R1.1-formula', '%s/%s/%s' % (cls, MODE_NAME[mode], scn), False, ctx.loc('types', f0),
+                       '%s rate of %s (%s) must equal %s' % (MODE_NAME[mode], cls, scn, expected),
+                       '%s.%s stores into the object while evaluating (`%s`): the rate depends on earlier calls, not only on its arguments'
+                       % (dc0, mode_h, util.stmt_key(hidden[0])[:70]))
+            continue
         dc, f, cases = extract(ctx, cls, mode)
         where = ctx.loc('types', f)
         for (scn, csub, vsub, expected) in specs[mode]:
